@@ -138,6 +138,11 @@ func (e *ExecDbl) InitChain(ctx context.Context, genesisTime time.Time, initialH
 	if e.dead != nil && e.dead() {
 		return nil, 0, ErrDead
 	}
+	// like the reference executor (and any client over a network) a call made with a context that has
+	// already ended fails with the context's error
+	if err := ctx.Err(); err != nil {
+		return nil, 0, err
+	}
 	e.mu.Lock()
 	defer e.mu.Unlock()
 	e.inited = true
@@ -157,6 +162,9 @@ func (e *ExecDbl) InitChain(ctx context.Context, genesisTime time.Time, initialH
 func (e *ExecDbl) GetTxs(ctx context.Context) ([][]byte, error) {
 	if e.dead != nil && e.dead() {
 		return nil, ErrDead
+	}
+	if err := ctx.Err(); err != nil {
+		return nil, err
 	}
 	if e.GetTxsLatency > 0 {
 		select {
@@ -178,6 +186,9 @@ func (e *ExecDbl) GetTxs(ctx context.Context) ([][]byte, error) {
 func (e *ExecDbl) ExecuteTxs(ctx context.Context, txs [][]byte, blockHeight uint64, timestamp time.Time, prevStateRoot []byte) ([]byte, uint64, error) {
 	if e.dead != nil && e.dead() {
 		return nil, 0, ErrDead
+	}
+	if err := ctx.Err(); err != nil {
+		return nil, 0, err
 	}
 	if e.Latency > 0 {
 		select {
@@ -224,6 +235,9 @@ func (e *ExecDbl) ExecuteTxs(ctx context.Context, txs [][]byte, blockHeight uint
 func (e *ExecDbl) SetFinal(ctx context.Context, blockHeight uint64) error {
 	if e.dead != nil && e.dead() {
 		return ErrDead
+	}
+	if err := ctx.Err(); err != nil {
+		return err
 	}
 	if e.OnFinalEnter != nil {
 		e.OnFinalEnter(blockHeight)
